@@ -19,7 +19,7 @@ import os, re
 
 from .. import bee, configs, oracles, registry, run
 from ..lex import cfamily
-from ..universe import cgen, skel
+from ..universe import cgen, langunits, skel
 from . import c02, c05
 
 LEVEL = "model_checking"
@@ -168,6 +168,10 @@ def programs(quick):
         progs.append(("skel:" + name, lang, src))
     for pr in c02.stmt_programs(1 if quick else 2):
         progs.append((pr[0], "C", pr[1]))
+    # units written for the spacing options nothing else reaches, and the language units of the mod_ options
+    for lang in LEXLANG:
+        for n, s, _m in langunits.sp_units(lang) + langunits.units(lang):
+            progs.append((n, lang, s))
     return progs
 
 
@@ -212,6 +216,7 @@ def check(ctx):
         "samples": [{"program": groups[0].prog_id, "base": groups[0].base_name}, {"program": groups[-1].prog_id, "base": groups[-1].base_name}],
         "single_deviations_pruned_by_read_set": agg["pruned"], "refused_runs": agg["refused"], "distinct_outcomes": agg["outcomes"],
     }
+    cov.update(bee.vacuity(agg, family=[n for n in bee.reg() if n.startswith('sp_')]))
     return {"level": LEVEL, "coverage": cov,
             "assumptions": ["hook UNC_VERIF_SPACE reports the rule string logged last before do_space() returned",
                             "tokens of input and output are paired by the independent lexer (cases whose token streams differ belong to C02)"]}
